@@ -1,5 +1,5 @@
 """C05 — TCC branches are registered before try and dispatched faithfully in phase two."""
-import json, os
+import json, os, re
 import vlib
 from vlib import coq_list, coq_hex
 
@@ -249,7 +249,7 @@ def run(chk, replay_case=None):
     seen = set()
     for i in oracle_fail:
         k, c = cases[i]
-        cls = c["oracle"][:50]
+        cls = re.sub(r"[\d.:]+", "#", c["oracle"])[:60]
         if cls in seen:
             continue
         seen.add(cls)
